@@ -137,6 +137,137 @@ theorem laplacian_eigenmaps_end_to_end (δ : Nat → Nat → K) {N : Nat} (hN : 
     intro κ hκ hsys hconst
     exact C09.le_solution _ _ _ _ hsys hd κ hκ hconst
 
+
+/-! ## C03 ∘ C09: why `check_connectivity` makes the skipped eigenvector the trivial one -/
+
+/-- on a strongly connected uniform graph with positive heat values every null vector of `L` is constant
+    (`xᵀLx = Σ h (x_i − x_nb)² = 0` forces equality along every edge, C03's reachability carries it everywhere) -/
+theorem laplacian_kernel_constant {g : Graph} {N k : Nat} (hu : Uniform g N k) (hN : 0 < N)
+    (hsc : StronglyConnected g N) (h : Mat N k K) (hh : ∀ i a, 0 < h i a) (x : Fin N → K)
+    (hx : (Mat.toM (laplacianL (nbOf hu) h)).mulVec x = 0) : ∀ i j, x i = x j := by
+  have hq := C09.laplacian_quadratic_form (nbOf hu) h x
+  rw [hx, dotProduct_zero] at hq
+  have hedge : ∀ i a, x i = x (nbOf hu i a) := by
+    intro i a
+    have h1 := (Finset.sum_eq_zero_iff_of_nonneg (fun i _ => Finset.sum_nonneg
+      (fun a _ => mul_nonneg (hh i a).le (sq_nonneg (x i - x (nbOf hu i a)))))).1 hq.symm i (Finset.mem_univ _)
+    have h2 := (Finset.sum_eq_zero_iff_of_nonneg
+      (fun a _ => mul_nonneg (hh i a).le (sq_nonneg (x i - x (nbOf hu i a))))).1 h1 a (Finset.mem_univ _)
+    rcases mul_eq_zero.1 h2 with h3 | h3
+    · exact absurd h3 (hh i a).ne'
+    · exact sub_eq_zero.1 ((pow_eq_zero_iff (two_ne_zero)).1 h3)
+  let x' : Nat → K := fun u => if hu' : u < N then x ⟨u, hu'⟩ else 0
+  have hx' : ∀ i : Fin N, x' i.1 = x i := fun i => by simp only [x', i.2, dite_true]
+  have hreach : ∀ {u v}, Reach g u v → x' u = x' v := by
+    intro u v hr
+    induction hr with
+    | refl => rfl
+    | step hr' he ih =>
+      obtain ⟨i, a, hi, hw⟩ := edge_nbOf hu he
+      rw [ih, ← hi, ← hw, hx', hx']
+      exact hedge i a
+  intro i j
+  have hr := hsc i.1 i.2 j.1 j.2
+  rw [hu.followed hN] at hr
+  have := hreach hr
+  rwa [hx', hx'] at this
+
+/-- hence the generalised eigenvalue `0` of `(L, D)` is simple: in every full `D`-orthonormal ascending eigensystem only
+    the first eigenvalue vanishes — the hypothesis `hsimple` of C09 `skipped_eigenvector_is_constant` -/
+theorem le_zero_eigenvalue_simple {g : Graph} {N k : Nat} (hu : Uniform g N k) (hN : 0 < N) (hkpos : 0 < k)
+    (hsc : StronglyConnected g N) (h : Mat N k K) (hh : ∀ i a, 0 < h i a)
+    (V : Matrix (Fin N) (Fin N) K) (lam : Fin N → K)
+    (hsys : GenEigSystem (Mat.toM (laplacianL (nbOf hu) h)) (Matrix.diagonal (degrees (nbOf hu) h)) V lam) :
+    ∀ j : Fin N, j.1 ≠ 0 → lam j ≠ 0 := by
+  intro j hj h0
+  set dg := degrees (nbOf hu) h with hdg
+  set i0 : Fin N := ⟨0, hN⟩ with hi0
+  have hsand : ∀ (M : Matrix (Fin N) (Fin N) K) a b,
+      (Vᵀ * M * V) a b = (fun i => V i a) ⬝ᵥ M.mulVec (fun i => V i b) := by
+    intro M a b
+    rw [Matrix.mul_assoc]
+    simp [Matrix.mul_apply, dotProduct, mulVec]
+  have hconstcol : ∀ a, lam a = 0 → ∀ i i', V i a = V i' a := by
+    intro a ha
+    apply laplacian_kernel_constant hu hN hsc h hh
+    rw [eigen_equation_col hsys a, ha, zero_smul]
+  have hdgpos := C09.degrees_pos (nbOf hu) h hkpos hh
+  have h00 : lam i0 = 0 := by
+    apply le_antisymm
+    · rw [← h0]; exact hsys.sorted (Fin.le_def.2 (Nat.zero_le _))
+    · have h1 := congrFun (congrFun hsys.diag i0) i0
+      rw [hsand, Matrix.diagonal_apply_eq] at h1
+      rw [← h1]; exact C09.laplacian_psd _ _ (fun i a => (hh i a).le) _
+  have hc0 := hconstcol _ h00
+  have hcj := hconstcol j h0
+  have hne : i0 ≠ j := fun e => hj (by rw [← e])
+  have ho := congrFun (congrFun hsys.orth i0) j
+  rw [hsand, Matrix.one_apply_ne hne] at ho
+  have hjj := congrFun (congrFun hsys.orth j) j
+  rw [hsand, Matrix.one_apply_eq] at hjj
+  have h0' := congrFun (congrFun hsys.orth i0) i0
+  rw [hsand, Matrix.one_apply_eq] at h0'
+  have e : ∀ a b, (∀ i i', V i a = V i' a) → (∀ i i', V i b = V i' b) →
+      (fun i => V i a) ⬝ᵥ (Matrix.diagonal dg).mulVec (fun i => V i b) = V i0 a * V i0 b * ∑ i, dg i := by
+    intro a b ha hb
+    simp only [dotProduct, Matrix.mulVec_diagonal]
+    rw [Finset.mul_sum]
+    apply Finset.sum_congr rfl
+    intro i _
+    rw [ha i i0, hb i i0]; ring
+  rw [e _ _ hc0 hcj] at ho
+  rw [e _ _ hcj hcj] at hjj
+  rw [e _ _ hc0 hc0] at h0'
+  have hS : 0 < ∑ i, dg i := Finset.sum_pos (fun i _ => hdgpos i) ⟨i0, Finset.mem_univ _⟩
+  rcases mul_eq_zero.1 ho with h1 | h1
+  · rcases mul_eq_zero.1 h1 with h2 | h2
+    · rw [h2] at h0'; simp at h0'
+    · rw [h2] at hjj; simp at hjj
+  · exact hS.ne' h1
+
+
+/-- **laplacian_eigenmaps_connected_kernel** — the end-to-end statement WITHOUT the hypothesis "the first eigenvector is
+    constant": with `check_connectivity` on, the graph handed to `compute_laplacian` is strongly connected, so every
+    null vector of the `L` handed to the solver is constant; therefore any solver outcome meeting the contract
+    `GenEigSystem` alone has `lam j ≠ 0` for `j ≠ 0`, its first column is a non-zero constant (the skipped, trivial
+    eigenvector), and the returned `Y` satisfies the whole conclusion of C09 `le_solution`. -/
+theorem laplacian_eigenmaps_connected_kernel (δ : Nat → Nat → K) {N : Nat} (hN : 0 < N) {k : Nat} (hk : 1 ≤ k)
+    (hkN : k ≤ N - 1) {d : Nat} (hd : 1 + d ≤ N) (width : K) (heat : K → K) (hheat : ∀ x, 0 < heat x)
+    (search : Nat → Graph) (hlen : ∀ k, (search k).length = N)
+    (hexact : ∀ k, k ≤ N - 1 → ∀ u (hu : u < (search k).length), IsExactKnn δ (List.range N) k u (search k)[u])
+    (solver : Mat N N K → Vec N K → Mat N N K × Vec N K) :
+    ∃ o, leEmbedModel δ N k true d hd width heat search solver = .ok o ∧
+      (∀ x : Fin N → K, (Mat.toM o.L).mulVec x = 0 → ∀ i j, x i = x j) ∧
+      (GenEigSystem (Mat.toM o.L) (Matrix.diagonal o.D) (Mat.toM o.V) o.lam →
+        (∀ j : Fin N, j.1 ≠ 0 → o.lam j ≠ 0) ∧
+        (∃ κ : K, κ ≠ 0 ∧ ∀ i, o.V i ⟨0, hN⟩ = κ) ∧
+        (∀ c, (Mat.toM o.L).mulVec (fun i => o.Y i c)
+            = o.lam (shiftIdx 1 hd c) • (Matrix.diagonal o.D).mulVec (fun i => o.Y i c)) ∧
+        (Mat.toM o.Y)ᵀ * Matrix.diagonal o.D * Mat.toM o.Y = 1 ∧
+        (∀ c, ∑ i, o.D i * o.Y i c = 0) ∧
+        Matrix.trace ((Mat.toM o.Y)ᵀ * Mat.toM o.L * Mat.toM o.Y) = ∑ c, o.lam (shiftIdx 1 hd c) ∧
+        ∀ Z : Matrix (Fin N) (Fin d) K, Zᵀ * Matrix.diagonal o.D * Z = 1 → (∀ c, ∑ i, o.D i * Z i c = 0) →
+          Matrix.trace ((Mat.toM o.Y)ᵀ * Mat.toM o.L * Mat.toM o.Y) ≤ Matrix.trace (Zᵀ * Mat.toM o.L * Z)) := by
+  obtain ⟨o, ho, ⟨j, -, hkle, hsc, -⟩, -, ⟨hu, -, hLD, -, -, -, -, hL1, -⟩, ⟨-, -, h4⟩⟩ :=
+    laplacian_eigenmaps_end_to_end δ hN hk hkN hd width heat hheat search hlen hexact solver
+  rw [C09.computeLaplacian_eq] at hLD
+  have hL : o.L = laplacianL (nbOf hu) (fun i a => heat (-(δ i.1 (nbOf hu i a).1) ^ 2 / width)) :=
+    congrArg Prod.fst hLD
+  have hD : o.D = degrees (nbOf hu) (fun i a => heat (-(δ i.1 (nbOf hu i a).1) ^ 2 / width)) :=
+    congrArg Prod.snd hLD
+  have hkpos : 0 < o.found.k := by omega
+  refine ⟨o, ho, ?_, ?_⟩
+  · intro x hx
+    rw [hL] at hx
+    exact laplacian_kernel_constant hu hN hsc _ (fun i a => hheat _) x hx
+  · intro hsys
+    have hsimple : ∀ j : Fin N, j.1 ≠ 0 → o.lam j ≠ 0 := by
+      have hsys' := hsys
+      rw [hL, hD] at hsys'
+      exact le_zero_eigenvalue_simple hu hN hkpos hsc _ (fun i a => hheat _) _ _ hsys'
+    obtain ⟨κ, hκ, hconst⟩ := C09.skipped_eigenvector_is_constant hN _ _ _ _ hsys hL1 hsimple
+    exact ⟨hsimple, ⟨κ, hκ, hconst⟩, h4 κ hκ hsys hconst⟩
+
 /-! ## Diffusion Map -/
 
 /-- everything `DiffusionMapImplementation::embed` computes on the way -/
